@@ -73,8 +73,9 @@ def model_oracle(sc, out):
             want = sum(1 for n in range(k) if o[2 * n][0] != 0 and o[2 * n][1] >= 1)
             running_total = sum(o[2 * n][1] for n in range(k))
             if o[2 * k][0] != running_total:
-                found.append(("numactors-differs-from-running-actors", "NumActors=%d but %d user actors of the scenario run (registered running: %d) after action %d %s" %
-                              (o[2 * k][0], running_total, want, ai, a), {"action_index": ai}))
+                shown = "NumActors went below zero (the unsigned counter wrapped)" if o[2 * k][0] == 4999 else "NumActors=%d" % o[2 * k][0]
+                found.append(("numactors-differs-from-running-actors", "%s but %d user actors of the scenario run (registered running: %d) after action %d %s" %
+                              (shown, running_total, want, ai, a), {"action_index": ai}))
     return found
 
 
@@ -218,7 +219,7 @@ META = {
     "ready": True,
     "category": "proof",
     "technique": "Rocq inductive invariants over a hand-written executable small-step model + scenario conformance and goroutine stress on real actor systems",
-    "text": "Eight theorems over a small-step model of name-based spawning (per-path single flight, lookup, newPID/PreStart, actors counter, addNode with canonical-instance return, Shutdown, death watch deleting by path; any number of names, callers and stoppers, any interleaving): all callers of one flight get the same result and the counter's increments/decrements are paired (every interleaving); at most one running instance per name, every successful caller handed the registered running instance, NumActors = number of running registered actors at quiescence (C11_partial: when a name is not looked up while its tree node still holds a stopped instance); refutation witnesses for Spawn and SpawnChild racing the death watch (open finding). Every run: generated driver sequences (concurrent Spawn/SpawnNamedFromFunc/SpawnChild of the same and different names, gated PreStart, Kill, held death watch) on real actor systems compared with the Coq model after every action (vm_compute), plus goroutine stress with the property's own oracle.",
+    "text": "Eight theorems over a small-step model of name-based spawning (per-path single flight, lookup, newPID/PreStart, actors counter, addNode with canonical-instance return, Shutdown, death watch deleting by path; any number of names, callers and stoppers, any interleaving): all callers of one flight get the same result and the counter's increments/decrements are paired (every interleaving); at most one running instance per name, every successful caller handed the registered running instance, NumActors = number of running registered actors at quiescence (C11_partial: when a name is not looked up while its tree node still holds a stopped instance); refutation witnesses for Spawn and SpawnChild racing the death watch (open finding). Every run: generated driver sequences (concurrent Spawn/SpawnNamedFromFunc/SpawnChild of the same and different names, gated PreStart, Kill, held death watch) on real actor systems compared with the Coq model after every action (vm_compute), plus goroutine stress with the property's own oracle. The model and the scenarios also cover a winner whose own context is cancelled inside PreStart (LCancel: the coalesced waiters start exactly one new flight), a waiter giving up on its own deadline while the flight continues (LAbandon), and a registry publication failing after the tree insertion (LAddFail: rollback by Shutdown, reaped by the death watch; mock registry attached to a real system).",
     "design_ref": "DESIGN.md 7/C11",
     "level_note": "Trusted: Coq kernel, the hand-written model (tied each run), x/sync singleflight contract (exercised, not proved), Go runtime for un-gated parts.",
 }
